@@ -1,8 +1,8 @@
-(* Tie_cts_closures_ecb1dec.v -- semantic tie of the EcbCs1 decryption closure body (cts/src/ecb_cs1.rs) to Cts.ecb_cs1_dec.
+(* Tie_cts_closures_ecb1.v -- semantic ties of the EcbCs1 decryption and encryption closure bodies (cts/src/ecb_cs1.rs) to Cts.ecb_cs1_dec.
    Proved in stages: ecb_cs1_dec_head (statements up to the bulk decryption over all whole blocks but the last, through
    `blocks.split_at(mid).0`), ecb_cs1_dec_tail (the un-stealing step on the last bs + tail bytes), composed with
    MirLemmas.run_stmts_app; the whole-block case is plain ECB. *)
-From BM Require Import Tie.TieLib Tie.ClosureLib Cts Cts_mem Cts_proofs Cts_spec Cts_cs_proofs Spec Spec_proofs BlockModes_proofs.
+From BM Require Import Tie.TieLib Tie.ClosureLib Cts Cts_mem Cts_proofs Cts_spec Cts_cs_proofs Cts_dec_proofs Spec Spec_proofs BlockModes_proofs.
 From BMGen Require Import Src_cts.
 Local Open Scope string_scope.
 Local Open Scope list_scope.
@@ -366,3 +366,221 @@ Section EcbCs1Dec.
         * apply HDl. rewrite skipn_length, app_length. lia.
   Qed.
 End EcbCs1Dec.
+
+Section EcbCs1Enc.
+  Variable C : cipher.
+  Let bs := c_bs C.
+  Hypothesis bs_pos : 0 < bs.
+  Hypothesis E_len : forall x, length x = bs -> length (c_E C x) = bs.
+  Let X := bctx C [("ecb_enc", FSem (ecb_enc_sem C))]
+                  [("into_chunks::BS", VNat bs); ("Block::<B>::default()", VBlk (zeros bs)); ("B::BlockSize::USIZE", VNat bs)].
+
+
+  Lemma tie_cts__ecb_cs1__BlockCipherEncClosure__Closure__call al ib it ob ot :
+    all_len bs ib -> all_len bs ob -> length ib = length ob -> 1 <= length ib ->
+    length it = length ot -> length ot < bs ->
+    exists e' o', run_body X (eenv true al (concat ib ++ it) (concat ob ++ ot)) cts__ecb_cs1__BlockCipherEncClosure__Closure__call = Some (e', VUnit)
+      /\ lookup "buf" e' = Some (VBuf al (concat ib ++ it) o')
+      /\ ecb_cs1_enc C (mkmem al (concat ib ++ it) (concat ob ++ ot)) = Ok (mkmem al (concat ib ++ it) o').
+  Proof.
+    intros Hib Hob Hnb Hnb1 Htl Htl2. unfold run_body. unfold block in *.
+    remember (length ib) as nb eqn:Enb.
+    destruct (bulk C bs_pos (cts_ecb_enc C) (fun _ _ => tt) (fun _ bl => map (c_E C) bl) (cts_ecb_enc_eq C)
+               (fun _ bl H => conj (map_length _ _) (all_len_map_f (c_E C) bs bl E_len H)) tt al ib it ob ot nb Hib Hob (eq_sym Enb) (eq_sym Hnb) Htl)
+      as (Ecells & HCl & HCa & Ecbc & Eouts & Emain).
+    remember (length ot) as tl eqn:Etl.
+    fold bs in Ecells, HCl, HCa, Ecbc, Eouts, Emain.
+    remember (map (c_E C) (map rd_in (map2 (mkcell al) ib ob))) as Cs eqn:ECs.
+    assert (Hci : length (concat ib) = nb * bs) by (rewrite (all_len_concat_length bs) by auto; lia).
+    assert (Hco : length (concat ob) = nb * bs) by (rewrite (all_len_concat_length bs) by auto; lia).
+    remember (concat ib ++ it) as i eqn:Ei. remember (concat ob ++ ot) as o eqn:Eo.
+    assert (HLi : length i = nb * bs + tl) by (subst i; rewrite app_length; lia).
+    assert (HLo : length o = nb * bs + tl) by (subst o; rewrite app_length; lia).
+    assert (Hdiv : ndiv (length o) bs = nb).
+    { unfold ndiv. rewrite HLo. symmetry. apply (Nat.div_unique _ _ _ tl); lia. }
+    assert (F0 : in_range 0 (c_bs C) = true) by (apply in_range_true; fold bs; lia).
+    run_prefix 2. fold bs. rewrite Hdiv. replace (length o - nb * bs) with tl by lia.
+    remember (cells_of bs al (firstn (nb * bs) (skipn 0 i)) (firstn (nb * bs) (skipn 0 o))) as cells0 eqn:Ec0.
+    assert (Eouts' : outs_of (ee_cs C cells0) = concat Cs) by exact Eouts.
+    assert (Hol : length (concat Cs) = nb * bs).
+    { rewrite (all_len_concat_length bs) by auto. unfold block in *. nia. }
+    assert (Eo1 : MirSem.splice 0 (nb * bs) (concat Cs) o = concat Cs ++ ot).
+    { subst o. apply seg_write_head. lia. }
+    assert (F1 : fits 0 (nb * bs) (length o) = true) by (apply fits_true; lia).
+    assert (F2 : fits 0 (nb * bs) (length i) = true) by (apply fits_true; lia).
+    assert (F3 : len_eq (length (concat Cs)) (nb * bs) = true) by (apply len_eq_true; exact Hol).
+    assert (Emodel : ecb_cs1_enc C (mkmem al i o) =
+       if Nat.eqb tl 0 then Ok (mkmem al i (concat Cs ++ ot)) else
+       do lastoff <- usub nb 1;
+       do last_block <- mget_out (mkmem al i (concat Cs ++ ot)) (lastoff * bs) bs;
+       do tin <- mget_in (mkmem al i (concat Cs ++ ot)) (nb * bs) tl;
+       do pos <- usub (length o) bs;
+       mput_out (mkmem al i (concat Cs ++ ot)) pos (c_E C (mix tin last_block))).
+    { unfold ecb_cs1_enc. fold bs. unfold mlen. cbn [m_out].
+      assert (Hd : length o / bs = nb) by (rewrite HLo; symmetry; apply (Nat.div_unique _ _ _ tl); lia).
+      assert (Hm : length o mod bs = tl) by (rewrite HLo; symmetry; apply (Nat.mod_unique _ _ nb); lia).
+      rewrite Hd, Hm. replace (Nat.ltb (length o) bs) with false by (symmetry; apply Nat.ltb_ge; nia).
+      rewrite Emain. cbn [obind]. destruct (cts_ecb_enc C tt cells0). reflexivity. }
+    unfold bs in F1, F2, F3.
+    Opaque ee_cs cells_of outs_of.
+    run_prefix 1.
+    match goal with |- context [outs_of (ee_cs C ?a)] => replace (outs_of (ee_cs C a)) with (concat Cs) by (symmetry; subst cells0; exact Eouts') end.
+    match goal with |- context [len_eq ?a ?b] => replace (len_eq a b) with true by (symmetry; exact F3) end. cbv beta iota.
+    match goal with |- context [MirSem.splice ?a ?b ?c ?d] => replace (MirSem.splice a b c d) with (concat Cs ++ ot) by (symmetry; exact Eo1) end.
+    assert (HL1 : length (concat Cs ++ ot) = nb * bs + tl) by (rewrite app_length; lia).
+    assert (G1 : fits (nb * bs) tl (length (concat Cs ++ ot)) = true) by (apply fits_true; lia).
+    assert (G2 : fits (nb * bs) tl (length i) = true) by (apply fits_true; lia).
+    assert (ET : forall ot', firstn tl (skipn (nb * bs) (concat Cs ++ ot')) = firstn tl ot').
+    { intros ot'. rewrite <- Hol, skipn_app_exact by reflexivity. reflexivity. }
+    assert (EI : firstn tl (skipn (nb * bs) i) = it).
+    { subst i. rewrite <- Hci, skipn_app_exact by reflexivity. apply firstn_all2. lia. }
+    destruct (Nat.eq_dec tl 0) as [Htl0|Htl0].
+    - unfold bs in G1, G2.
+      run_prefix 1.
+      eexists _, _. split; [reflexivity|]. split; [reflexivity|]. rewrite Emodel.
+      replace (Nat.eqb tl 0) with true by (symmetry; apply Nat.eqb_eq; exact Htl0). reflexivity.
+    - assert (G3 : len_eq (length (firstn tl (skipn (nb * bs) (concat Cs ++ ot)))) 0 = false).
+      { apply len_eq_false. rewrite ET, firstn_all2 by lia. lia. }
+      unfold bs in G1, G2, G3.
+      run_prefix 1.
+      assert (Ecl : forall ot', cells_of bs al (firstn (nb * bs) (skipn 0 i)) (firstn (nb * bs) (skipn 0 (concat Cs ++ ot'))) = map2 (mkcell al) ib Cs).
+      { intros ot'. subst i. cbn [skipn]. Transparent cells_of. unfold cells_of. Opaque cells_of.
+        rewrite <- Hci at 1. rewrite <- Hol. rewrite !firstn_app_exact by reflexivity. rewrite !(chunks_blocks_only C) by auto. reflexivity. }
+      assert (Erd : forall ot', map rd_out (cells_of bs al (firstn (nb * bs) (skipn 0 i)) (firstn (nb * bs) (skipn 0 (concat Cs ++ ot')))) = Cs).
+      { intros ot'. rewrite Ecl. apply map_rd_out_mkcell. lia. }
+      destruct (exists_last (l := Cs)) as (Cp & cl & ECp). { intros E0; rewrite E0 in HCl; cbn in HCl; lia. }
+      assert (Hcp : length Cp = nb - 1) by (rewrite ECp, app_length in HCl; cbn in HCl; lia).
+      assert (Hcl : length cl = bs) by (rewrite ECp in HCa; apply Forall_app in HCa; destruct HCa as [_ Hx]; inversion Hx; auto).
+      assert (H1 : in_range 0 (length (map rd_out (cells_of bs al (firstn (nb * bs) (skipn 0 i)) (firstn (nb * bs) (skipn 0 (concat Cs ++ ot)))))) = true).
+      { apply in_range_true. rewrite Erd. unfold block in *. lia. }
+      unfold bs in H1.
+      run_prefix 1. fold bs. rewrite Erd. rewrite HCl.
+      replace (in_range 0 nb) with true by (symmetry; apply in_range_true; lia). cbv beta iota.
+      run_prefix 2. fold bs. rewrite (ET ot), (firstn_all2 ot) by lia. rewrite <- Etl.
+      run_prefix 1. fold bs. rewrite ?(ET ot), ?EI, ?(firstn_all2 ot) by lia. rewrite <- ?Etl.
+      repeat ok_check. fold bs. rewrite ?(ET ot), ?EI, ?(firstn_all2 ot) by lia. rewrite <- ?Etl.
+      remember (if al then ot else it) as tin eqn:Etin.
+      assert (Htin : length tin = tl) by (subst tin; destruct al; lia).
+      repeat ok_check.
+      assert (Eblk : MirSem.splice 0 (tl - 0) tin (zeros bs) = tin ++ zeros (bs - tl)).
+      { unfold MirSem.splice. cbn [firstn app Nat.add]. f_equal. unfold zeros. rewrite skipn_repeat_l. f_equal. lia. }
+      rewrite Eblk.
+      assert (Enth : nth (nb - 1) Cs [] = cl).
+      { rewrite ECp, <- Hcp, app_nth2, Nat.sub_diag by lia. reflexivity. }
+      run_prefix 1. fold bs. unfold block in *. rewrite ?Erd, ?Enth, ?HCl.
+      assert (Emix : MirSem.splice tl (bs - tl) (firstn (bs - tl) (skipn tl cl)) (tin ++ zeros (bs - tl)) = mix tin cl).
+      { unfold MirSem.splice, mix. rewrite <- Htin at 1. rewrite firstn_app_exact by reflexivity. f_equal.
+        rewrite (skipn_all2 (tin ++ zeros (bs - tl))) by (rewrite app_length, zeros_length; lia). rewrite app_nil_r, Htin.
+        apply firstn_all2. rewrite skipn_length. lia. }
+      repeat first [ok_check | progress (rewrite ?Erd, ?Enth, ?HCl, ?Hcl, ?app_length, ?zeros_length, ?Htin)].
+      replace (tl + (bs - tl) - tl) with (bs - tl) by lia. rewrite Emix.
+      unfold bs. run_prefix 1. fold bs.
+      match goal with |- context [VBlk (c_E C ?x)] => remember (c_E C x) as cb eqn:Ecb end.
+      assert (Hcb : length cb = bs).
+      { subst cb; apply E_len. unfold mix. rewrite app_length, skipn_length. lia. }
+      unfold bs. run_prefix 1. fold bs. unfold block in *.
+      repeat first [ok_check | progress (rewrite ?HL1, ?Hcb)].
+      run_rest. fold bs. unfold block in *.
+      repeat first [ok_check | progress (rewrite ?HL1, ?Hcb) | progress (rewrite ?msplice_length by (rewrite ?HL1, ?Hcb; nia))].
+      eexists _, _. split; [reflexivity|]. split; [reflexivity|]. rewrite Emodel.
+      replace (Nat.eqb tl 0) with false by (symmetry; apply Nat.eqb_neq; lia).
+      unfold usub. replace (Nat.leb 1 nb) with true by (symmetry; apply Nat.leb_le; lia). cbn [obind].
+      assert (Hcpl : length (concat Cp) = (nb - 1) * bs).
+      { rewrite (all_len_concat_length bs). - unfold block in *; lia. - rewrite ECp in HCa. apply Forall_app in HCa. tauto. }
+      assert (Ego : mget_out (mkmem al i (concat Cs ++ ot)) ((nb - 1) * bs) bs = Ok cl).
+      { unfold mget_out, slice. cbn [m_out]. rewrite HL1.
+        replace (Nat.leb ((nb - 1) * bs) ((nb - 1) * bs + bs)) with true by (symmetry; apply Nat.leb_le; lia).
+        replace (Nat.leb ((nb - 1) * bs + bs) (nb * bs + tl)) with true by (symmetry; apply Nat.leb_le; nia). cbn [andb].
+        replace ((nb - 1) * bs + bs - (nb - 1) * bs) with bs by lia.
+        rewrite ECp, concat_app, <- app_assoc, <- Hcpl, skipn_app_exact by reflexivity. cbn [concat]. rewrite app_nil_r, <- Hcl, firstn_app_exact by reflexivity. reflexivity. }
+      assert (Eg : mget_in (mkmem al i (concat Cs ++ ot)) (nb * bs) tl = Ok tin).
+      { unfold mget_in, msrc, slice. cbn [m_al m_in m_out]. subst tin.
+        replace (nb * bs + tl - nb * bs) with tl by lia.
+        destruct al.
+        - rewrite HL1. replace (Nat.leb (nb * bs) (nb * bs + tl)) with true by (symmetry; apply Nat.leb_le; lia).
+          rewrite Nat.leb_refl. cbn [andb]. rewrite (ET ot), firstn_all2 by lia. reflexivity.
+        - rewrite HLi. replace (Nat.leb (nb * bs) (nb * bs + tl)) with true by (symmetry; apply Nat.leb_le; lia).
+          rewrite Nat.leb_refl. cbn [andb]. rewrite EI. reflexivity. }
+      rewrite Ego. cbn [obind]. rewrite Eg. cbn [obind]. unfold mix. first [rewrite <- Ecb | rewrite Htin; rewrite <- Ecb].
+      replace (Nat.leb bs (length o)) with true by (symmetry; apply Nat.leb_le; nia). cbn [obind].
+      unfold mput_out. cbn [m_al m_in m_out]. rewrite HL1, Hcb, HLo.
+      replace (Nat.leb (nb * bs + tl - bs + bs) (nb * bs + tl)) with true by (symmetry; apply Nat.leb_le; nia).
+      do 2 f_equal. unfold splice, MirSem.splice. rewrite Hcb.
+      replace (nb * bs + tl - (nb * bs + tl - bs)) with bs by nia. reflexivity.
+  Qed.
+
+  (* ---- C05 over the translated source: the bytes this closure body leaves in the buffer are the NIST SP 800-38A
+     Addendum ciphertext of the message, buffer-to-buffer (any prior contents of the output buffer) and in place --
+     the tie theorem above composed with Cts_cs_proofs.ecb_cs1_enc_ok (= Props/C05). *)
+  Theorem C05_ecb_cs1_enc_source_b2b (blocks : list (list N)) (tail : list N) (ob : list (list N)) (ot : list N) :
+    cipher_wf C -> all_len bs blocks -> 1 <= length blocks -> length tail < bs ->
+    all_len bs ob -> length ob = length blocks -> length ot = length tail ->
+    exists e', run_body X (eenv true false (concat blocks ++ tail) (concat ob ++ ot)) cts__ecb_cs1__BlockCipherEncClosure__Closure__call = Some (e', VUnit)
+      /\ lookup "buf" e' = Some (VBuf false (concat blocks ++ tail) (ecb_cs1_spec bs (c_E C) blocks tail)).
+  Proof.
+    intros Cwf Hb Hn Ht Hob Hobl Hotl.
+    destruct (tie_cts__ecb_cs1__BlockCipherEncClosure__Closure__call false blocks tail ob ot) as (e' & o' & Hrun & Hbuf & Hmod); auto; try lia.
+    assert (Hm : msg_mem C (mkmem false (concat blocks ++ tail) (concat ob ++ ot)) blocks tail).
+    { constructor; auto. split; [|discriminate]. cbn [m_in m_out]. rewrite !app_length, !(all_len_concat_length bs) by auto. lia. }
+    destruct (ecb_cs1_enc_ok C Cwf _ blocks tail Hm) as (m' & E1 & E2).
+    fold bs in E2. rewrite Hmod in E1. injection E1 as <-. cbn [m_out] in E2. subst o'.
+    exists e'. split; [exact Hrun | exact Hbuf].
+  Qed.
+
+  Theorem C05_ecb_cs1_enc_source_inplace (blocks : list (list N)) (tail : list N) :
+    cipher_wf C -> all_len bs blocks -> 1 <= length blocks -> length tail < bs ->
+    exists e', run_body X (eenv true true (concat blocks ++ tail) (concat blocks ++ tail)) cts__ecb_cs1__BlockCipherEncClosure__Closure__call = Some (e', VUnit)
+      /\ lookup "buf" e' = Some (VBuf true (concat blocks ++ tail) (ecb_cs1_spec bs (c_E C) blocks tail)).
+  Proof.
+    intros Cwf Hb Hn Ht.
+    destruct (tie_cts__ecb_cs1__BlockCipherEncClosure__Closure__call true blocks tail blocks tail) as (e' & o' & Hrun & Hbuf & Hmod); auto; try lia.
+    assert (Hm : msg_mem C (mkmem true (concat blocks ++ tail) (concat blocks ++ tail)) blocks tail).
+    { constructor; auto. split; auto. }
+    destruct (ecb_cs1_enc_ok C Cwf _ blocks tail Hm) as (m' & E1 & E2).
+    fold bs in E2. rewrite Hmod in E1. injection E1 as <-. cbn [m_out] in E2. subst o'.
+    exists e'. split; [exact Hrun | exact Hbuf].
+  Qed.
+End EcbCs1Enc.
+
+(* ---- C01 over the translated source: the translated EcbCs1 encryption closure run in place on a message, then the
+   translated decryption closure run in place on what it left, returns the message (D inverse to E on blocks).
+   Composition of the two closure ties with Cts_dec_proofs.cts_roundtrip_composed (= Props/C01, C01_cts). *)
+Section EcbCs1RoundTrip.
+  Variable C : cipher.
+  Let bs := c_bs C.
+  Hypothesis Cwf : cipher_wf C.
+  Hypothesis DE : DE_id C.
+  Let Xe := bctx C [("ecb_enc", FSem (ecb_enc_sem C))]
+                   [("into_chunks::BS", VNat bs); ("Block::<B>::default()", VBlk (zeros bs)); ("B::BlockSize::USIZE", VNat bs)].
+  Let Xd := bctx C [("ecb_dec", FSem (ecb_dec_sem C))]
+                   [("into_chunks::BS", VNat bs); ("Block::<B>::default()", VBlk (zeros bs)); ("B::BlockSize::USIZE", VNat bs); ("try_into::LEN", VNat bs)].
+
+  Theorem C01_ecb_cs1_source_inplace (blocks : list (list N)) (tail : list N) :
+    all_len bs blocks -> 1 <= length blocks -> length tail < bs ->
+    let M := concat blocks ++ tail in
+    exists e1 c e2,
+      run_body Xe (eenv true true M M) cts__ecb_cs1__BlockCipherEncClosure__Closure__call = Some (e1, VUnit)
+      /\ lookup "buf" e1 = Some (VBuf true M c) /\ length c = length M
+      /\ run_body Xd (eenv false true c c) cts__ecb_cs1__BlockCipherDecClosure__Closure__call = Some (e2, VUnit)
+      /\ lookup "buf" e2 = Some (VBuf true c M).
+  Proof.
+    intros Hb Hn Ht M.
+    destruct Cwf as (bs_pos & Hw & E_len & D_len).
+    destruct (tie_cts__ecb_cs1__BlockCipherEncClosure__Closure__call C bs_pos E_len true blocks tail blocks tail) as (e1 & c & Hrun1 & Hbuf1 & Hmod1); auto.
+    fold M in Hrun1, Hbuf1, Hmod1.
+    assert (Hm : msg_mem C (mkmem true M M) blocks tail) by (constructor; auto; split; auto).
+    assert (Hwf2 : mwf (mkmem true c c)) by (split; auto).
+    destruct (cts_roundtrip_composed C (conj bs_pos (conj Hw (conj E_len D_len))) DE EcbCs1 (zeros bs) (mkmem true M M) blocks tail (mkmem true c c)
+                (zeros_length _) Hm Hwf2) as (c0 & Ec0 & Hlen & Hdec).
+    cbn [cts_run] in Ec0, Hdec. rewrite Hmod1 in Ec0. injection Ec0 as <-. unfold mlen in Hlen. cbn [m_out] in Hlen.
+    destruct (Hdec eq_refl) as (p & Ep & Hp).
+    destruct (chunks_decompose bs c bs_pos) as (bl & t & Ec & Hbl & Htl & _).
+    assert (Hbn : 1 <= length bl).
+    { assert (HL : length c = length bl * bs + length t) by (rewrite Ec at 1; rewrite app_length, (all_len_concat_length bs) by auto; reflexivity).
+      assert (HM : length M = length blocks * bs + length tail) by (unfold M; rewrite app_length, (all_len_concat_length bs) by auto; reflexivity).
+      destruct bl; [cbn [length] in HL; fold bs in Htl; nia | cbn [length]; lia]. }
+    destruct (tie_cts__ecb_cs1__BlockCipherDecClosure__Closure__call C bs_pos D_len true bl t bl t) as (e2 & o2 & Hrun2 & Hbuf2 & Hmod2); auto.
+    rewrite <- Ec in Hrun2, Hbuf2, Hmod2. rewrite Hmod2 in Ep. injection Ep as <-. cbn [m_out] in Hp. subst o2.
+    exists e1, c, e2. repeat split; auto.
+  Qed.
+End EcbCs1RoundTrip.
